@@ -84,7 +84,7 @@ def chain(model):
     swapped = order != (a, b)
     # V initialised from the parameter
     inits = [s for s in ast.walk(fn.node) if isinstance(s, ast.Assign) and any(isinstance(t, ast.Name) and t.id == v for t in s.targets) and s is not body[0]]
-    if v != p and not (len(inits) == 1 and isinstance(inits[0].value, ast.Name) and inits[0].value.id == p):
+    if v != p and not (inits and all(isinstance(i_.value, ast.Name) and i_.value.id == p for i_ in inits)):
         raise AnalysisError("%s: accumulator is not initialised from the parameter" % FIXER)
     # the list
     it = lp.iter
@@ -101,6 +101,8 @@ def chain(model):
                 val = st.value
             if tg == it.id:
                 pairs = _literal_pairs(val)
+                if pairs is None:
+                    pairs = _zipped_pairs(tree, val)
         # the list must not be mutated elsewhere in the library
         for rel, (tree2, _) in model.trees.items():
             if rel.endswith("posc.py"):
@@ -122,9 +124,44 @@ def chain(model):
     if not main:
         raise AnalysisError("%s: no `return changed, rewritten` found" % FIXER)
     flag = main[0].value.elts[0]
-    flag_ok = (isinstance(flag, ast.Compare) and len(flag.ops) == 1 and isinstance(flag.ops[0], ast.NotEq)
-               and {ast.unparse(flag.left), ast.unparse(flag.comparators[0])} == {p, v})
+
+    def is_changed_test(e):
+        return (isinstance(e, ast.Compare) and len(e.ops) == 1 and isinstance(e.ops[0], ast.NotEq)
+                and {ast.unparse(e.left), ast.unparse(e.comparators[0])} == {p, v})
+
+    if isinstance(flag, ast.Name):
+        # a flag local: `changed = unit != fixed` on the normal path (and a constant False where nothing was rewritten)
+        vals = [s_.value for s_ in ast.walk(fn.node) if isinstance(s_, ast.Assign) and any(isinstance(t_, ast.Name) and t_.id == flag.id for t_ in s_.targets)]
+        flag_ok = any(is_changed_test(x) for x in vals) and all(is_changed_test(x) or (isinstance(x, ast.Constant) and x.value is False) for x in vals)
+    else:
+        flag_ok = is_changed_test(flag)
     return pairs, fn, {"flag_is_changed_test": flag_ok, "flag_expr": ast.unparse(flag), "return": main[0]}
+
+
+def _module_literal(tree, name):
+    for st in tree.body:
+        if isinstance(st, ast.Assign) and len(st.targets) == 1 and isinstance(st.targets[0], ast.Name) and st.targets[0].id == name:
+            return st.value
+        if isinstance(st, ast.AnnAssign) and isinstance(st.target, ast.Name) and st.target.id == name and st.value is not None:
+            return st.value
+    return None
+
+
+def _zipped_pairs(tree, node):
+    """tuple(zip(A, B)) / list(zip(A, B)) / zip(A, B) over two module-level literal sequences of strings of equal length."""
+    if isinstance(node, ast.Call) and isinstance(node.func, ast.Name) and node.func.id in ("tuple", "list") and len(node.args) == 1 and not node.keywords:
+        node = node.args[0]
+    if not (isinstance(node, ast.Call) and isinstance(node.func, ast.Name) and node.func.id == "zip" and len(node.args) == 2 and not node.keywords):
+        return None
+    seqs = []
+    for a in node.args:
+        lit = _module_literal(tree, a.id) if isinstance(a, ast.Name) else a
+        if not (isinstance(lit, (ast.Tuple, ast.List)) and all(isinstance(x, ast.Constant) and isinstance(x.value, str) for x in lit.elts)):
+            return None
+        seqs.append(lit.elts)
+    if len(seqs[0]) != len(seqs[1]):
+        raise AnalysisError("%s: the two zipped spelling sequences have different lengths" % FIXER)
+    return [(x.value, y.value, x.lineno) for x, y in zip(*seqs)]
 
 
 class PairList(list):
